@@ -10,5 +10,10 @@ for id in "$@"; do
   rc=$(echo "$out" | grep -c "^VIOLATION")
   echo "== $id: $(echo "$out" | grep '^VIOLATION\|^INFRA\|KNOWN' | head -2) [violation_lines=$rc]"
   echo "$out" | grep "violation:" | head -2 | cut -c1-300
+  rp=$(echo "$out" | sed -n 's/^VIOLATION .*replay=//p' | head -1)
+  [ -n "$rp" ] && python3 -c "
+import json,sys,collections
+d=json.load(open('$rp'))
+print('  violation keys by prefix:', dict(collections.Counter(v['key'].split(':')[0] for v in d['violations'])))"
 done
 rm -rf $scratch /verif/.alt/$(python3 -c "import hashlib;print(hashlib.md5(b'$scratch').hexdigest()[:10])")
